@@ -59,6 +59,24 @@ func TestC04InAlike(t *testing.T) {
 		check(`route("a b c","")`, route("a b c", ""), 0)
 		check(`route("x","y")`, route("x", "y"), 0) // the When in front of In never got a Return: not a clause
 	})
+	// the alternatives are what was given to In when it was called: a row the caller re-uses for the next clause (or
+	// changes afterwards) does not change a clause registered before
+	guard("alternatives from a re-used row", func() {
+		b := mocker.Create()
+		defer b.Reset()
+		row := []interface{}{"a", "b"}
+		w := b.Func(route).Return(0).In(row).Return(10)
+		row[0], row[1] = "c", "d"
+		w = w.In(row).Return(20)
+		row[0], row[1] = "e", "f"
+		w.In(row, []interface{}{"g", "h"}).Return(30)
+		row[0], row[1] = "never", "registered"
+		check(`route("a","b") [row re-used]`, route("a", "b"), 10)
+		check(`route("c","d") [row re-used]`, route("c", "d"), 20)
+		check(`route("e","f") [row re-used]`, route("e", "f"), 30)
+		check(`route("g","h") [row re-used]`, route("g", "h"), 30)
+		check(`route("never","registered") [row re-used]`, route("never", "registered"), 0)
+	})
 	guard("named numbers", func() {
 		b := mocker.Create()
 		defer b.Reset()
